@@ -212,7 +212,9 @@ impl LogFileWriter {
                 }
                 file_set
                     .delete_oldest_while_over_max_len(
-                        self.max_keep_bytes - file.len - (buffer.len() as u64),
+                        self.max_keep_bytes
+                            .saturating_sub(file.len)
+                            .saturating_sub(buffer.len() as u64),
                     )
                     .unwrap();
                 file.write_all(&buffer).unwrap();
